@@ -243,13 +243,22 @@ func vxRunC01(c *vxC01Case, k *vstats.Case) error {
 	if c.ByTimeout {
 		timeout = 120 * time.Millisecond
 	}
-	s, err := vxClusterConfig(cl, c.Proto, func(cfg *ClusterConfig) {
-		cfg.Timeout = timeout
-		cfg.StreamObserver = obs
-		if !c.Coalesce {
-			cfg.WriteCoalesceWaitTime = 0
+	var s *Session
+	var err error
+	for try := 0; try < 6; try++ {
+		s, err = vxClusterConfig(cl, c.Proto, func(cfg *ClusterConfig) {
+			cfg.Timeout = timeout
+			cfg.StreamObserver = obs
+			if !c.Coalesce {
+				cfg.WriteCoalesceWaitTime = 0
+			}
+		}).CreateSession()
+		// with the 120 ms timer a loaded machine can make the handshake itself time out: that is no finding
+		if err == nil || !c.ByTimeout || !strings.Contains(err.Error(), "timeout") {
+			break
 		}
-	}).CreateSession()
+		obs = &vxC01Obs{}
+	}
 	if err != nil {
 		return fmt.Errorf("harness: CreateSession: %v", err)
 	}
